@@ -894,7 +894,116 @@ def fixedtarget_constants(out):
     emit_list("fixedRequestBody", statements(body, "request_tcp_channel"))
 
 
-SECTIONS = {"Dispatch": dispatch_constants, "FixedTarget": fixedtarget_constants, "Frame": frame_constants, "Config": config_constants, "Socks": socks_constants,
+def serverforward_constants(out):
+    # C01 (glue, server side): `tcp_forwarder_on_channel`, `bind_tcp_for_target` and `resolve_and_try` of
+    # penguin/src/server/forwarder.rs as ordered, normalised statements.  Model/ServerForward.lean is a
+    # transcription of exactly these.  A tracing macro is left out only when it has no `?` in it
+    # (`debug!("…", rstream.peer_addr()?)` is an effect and stays).
+    def lean_str(t):
+        return '"' + t.replace("\\", "\\\\").replace('"', '\\"') + '"'
+
+    def norm(t):
+        t = re.sub(r"\s+", " ", t.strip())
+        t = re.sub(r"\s*\.\s*(?=[A-Za-z_])", ".", t)
+        t = re.sub(r"([(\[])\s+", r"\1", t)
+        t = re.sub(r",?\s+([)\]])", r"\1", t)
+        t = re.sub(r",\s*\}", " }", t)
+        return t
+
+    def statements(body, what, sep=";"):
+        stmts, depth, cur, i, instr = [], 0, "", 0, False
+        while i < len(body):
+            ch = body[i]
+            if instr:
+                cur += ch
+                if ch == "\\":
+                    cur += body[i + 1]
+                    i += 1
+                elif ch == '"':
+                    instr = False
+            elif ch == '"':
+                instr = True
+                cur += ch
+            elif ch in "([{":
+                depth += 1
+                cur += ch
+            elif ch in ")]}":
+                depth -= 1
+                if depth < 0:
+                    raise Broken(f"{what}: unbalanced brackets")
+                cur += ch
+            elif ch == sep and depth == 0:
+                stmts.append(cur)
+                cur = ""
+            else:
+                cur += ch
+            i += 1
+        if depth != 0 or instr:
+            raise Broken(f"{what}: unbalanced brackets")
+        if cur.strip():
+            stmts.append(cur)
+        stmts = [norm(x) for x in stmts]
+        return [x for x in stmts
+                if not (re.match(r"(trace|debug|info|warn|error)!\(", x) and "?" not in re.sub(r'"(\\.|[^"\\])*"', "", x))]
+
+    def emit_list(name, xs):
+        out.append(f"def {name} : List String := [" + ", ".join(lean_str(x) for x in xs) + "]")
+
+    def count(pat, text, what, n=1):
+        k = len(re.findall(pat, text))
+        if k != n:
+            raise Broken(f"{what}: found {k} times, expected {n}")
+
+    src = strip_comments(read("penguin/src/server/forwarder.rs")).split("#[cfg(test)]")[0]
+
+    # --- tcp_forwarder_on_channel
+    params, body = one(r"async fn tcp_forwarder_on_channel\((.*?)\)\s*->\s*Result<\(\), Error>\s*\{(.*?)\n\}\n", src,
+                       "forwarder.rs: fn tcp_forwarder_on_channel", re.S)
+    for pat, what in [(r"\bbind_tcp_for_target\(", "bind_tcp_for_target"), (r"\.connect\w*\(", "a connect call"),
+                      (r"\binto_copy_bidirectional\w*\(", "into_copy_bidirectional"), (r"\bfrom_utf8\w*\(", "from_utf8"),
+                      (r"\bchannel\.dest_host\b", "channel.dest_host"), (r"\bchannel\.dest_port\b", "channel.dest_port")]:
+        count(pat, body, f"tcp_forwarder_on_channel: {what}")
+    for pat, what in [(r"\b(loop|for|while)\b", "a loop"), (r"\b(lookup_host|TcpStream::connect|TcpSocket::new_v\d)\b", "a second way to a socket"),
+                      (r"\btokio::spawn\b", "a spawn")]:
+        count(pat, body, f"tcp_forwarder_on_channel: {what}", 0)
+    emit_list("serverFwdParams", [norm(params).rstrip(",")])
+    emit_list("serverFwdBody", statements(body, "tcp_forwarder_on_channel"))
+
+    # --- bind_tcp_for_target: the one call of resolve_and_try and its closure
+    params, body = one(r"async fn bind_tcp_for_target<T: ToSocketAddrs>\((.*?)\)\s*->\s*io::Result<\(TcpSocket, SocketAddr\)>\s*\{(.*?)\n\}\n",
+                       src, "forwarder.rs: fn bind_tcp_for_target", re.S)
+    emit_list("serverFwdBindParams", [norm(params).rstrip(",")])
+    head, clos, tail = one(r"^(.*?\|[^|]*\|\s*)\{(.*)\}(\s*\)\s*\.await\s*)$", body, "bind_tcp_for_target: one closure block", re.S)
+    emit_list("serverFwdBindCall", [norm(head) + " {…}" + norm(tail)])
+    count(r"\bif\b", clos, "bind_tcp_for_target closure: if")
+    count(r"\belse\b", clos, "bind_tcp_for_target closure: else")
+    count(r"\b(loop|for|while|match|return|continue|break)\b", clos, "bind_tcp_for_target closure: other control flow", 0)
+    pre, cond, then, els, rest = one(r"^(.*?)\bif\b(.*?)\{(.*?)\}\s*else\s*\{(.*?)\}(.*)$", clos,
+                                     "bind_tcp_for_target closure: if / else", re.S)
+    emit_list("serverFwdBindPrelude", statements(pre, "bind_tcp_for_target closure"))
+    emit_list("serverFwdBindCond", [norm(cond)])
+    emit_list("serverFwdBindThen", statements(then, "bind_tcp_for_target: v4 branch"))
+    emit_list("serverFwdBindElse", statements(els, "bind_tcp_for_target: other branch"))
+    emit_list("serverFwdBindTail", statements(rest, "bind_tcp_for_target closure tail"))
+
+    # --- resolve_and_try: the candidate loop
+    body = one(r"async fn resolve_and_try<F, R, T>\(host: T, f: F\)\s*->\s*io::Result<R>\s*where[^{]*\{(.*?)\n\}\n", src,
+               "forwarder.rs: fn resolve_and_try", re.S)
+    count(r"\bfor\b", body, "resolve_and_try: for")
+    count(r"\bmatch\b", body, "resolve_and_try: match")
+    count(r"\breturn\b", body, "resolve_and_try: return")
+    count(r"\blookup_host\(", body, "resolve_and_try: lookup_host")
+    count(r"\b(loop|while|continue|break|if)\b", body, "resolve_and_try: other control flow", 0)
+    pre, head, loop, rest = one(r"^(.*?)\b(for\s+\w+\s+in\s+\w+)\s*\{(.*)\n    \}\n(.*)$", body, "resolve_and_try: the for loop", re.S)
+    emit_list("serverFwdResolvePrelude", statements(pre, "resolve_and_try"))
+    emit_list("serverFwdLoopHead", [norm(head)])
+    scrut, arms = one(r"^\s*match\b(.*?)\{(.*)\}\s*$", loop, "resolve_and_try: the loop body is one match", re.S)
+    emit_list("serverFwdLoopMatch", [norm(scrut)])
+    emit_list("serverFwdLoopArms", statements(arms, "resolve_and_try: arms", sep=","))
+    emit_list("serverFwdResolveTail", statements(rest, "resolve_and_try tail"))
+
+
+SECTIONS = {"ServerForward": serverforward_constants, "Dispatch": dispatch_constants, "FixedTarget": fixedtarget_constants, "Frame": frame_constants, "Config": config_constants, "Socks": socks_constants,
             "ClientReq": clientreq_constants,
             "Client": client_constants, "Server": server_constants, "Tls": tls_constants,
             "UdpMap": udpmap_constants,
